@@ -100,7 +100,7 @@ def generate(rng, index, tier):
                 ops.append(kernel.text_one(rng.pick(['TRACE_STRING_NEWTHREAD', 'TRACE_STRING_EXEC']), rng.ident(2, 8)) if rng.chance(0.6) else
                            {'k': 'one', 'name': rng.pick(['TRACE_DATA_NEWTHREAD', 'TRACE_DATA_EXEC']), 'q': 0, 'a': [rng.pick(tids), rng.pick(list(pids.values())), 0, 0]})
             else:
-                ops.append(worlds.op_imap(rng, rng.randbytes(16).hex(), rng.randrange(1, 1 << 30) << 12))
+                ops.append(worlds.op_imap(rng, worlds.draw_uuid(rng), rng.randrange(1, 1 << 30) << 12))
         # an enclosing window that straddles other threads' announcements
         if rng.chance(0.5):
             s, e = worlds.domains.draw(rng, 'BSC_read')
